@@ -42,7 +42,8 @@ class ConstantFoldingMapperBase:
         from pymbolic import evaluate
         try:
             return evaluate(expr)
-        except ValueError:
+        except (ValueError, ArithmeticError):
+            # e.g. 1/0: leave the subexpression unfolded
             return None
 
     def fold(self, expr, klass, op, constructor):
